@@ -2,6 +2,7 @@
   C16 helper library: "this computation changes at most the heap cell `a`" (`MutatesOnly a`).
 -/
 import CklVerif.Lemmas.C16Natives
+import CklVerif.Lemmas.C17EvalBase
 namespace Ckl
 
 /-- the heaps have the same size and agree on every cell other than `a`; the variable bindings
@@ -104,6 +105,7 @@ theorem MutatesOnly.callPure (name : String) (args : List (String × RVal)) (div
        rw [argGet_of_dictGet pos hfirst]
        simp only [pure_bind]
        mut!)
+    | (exfalso; rcases callDate_some_name h with rfl | rfl | rfl <;> simp [mutators] at hn)
     | (cases h)
 
 end Ckl
